@@ -46,6 +46,9 @@ struct queues {
       use_value_queue<decltype(q2), nontrivial>(q2);
       xenium::michael_scott_queue<std::unique_ptr<int>, p::reclaimer<R>> q3;
       use_value_queue<decltype(q3), std::unique_ptr<int>>(q3);
+      // configured backoff: code under `if constexpr (backoff is not no_backoff)` exists only in such instantiations
+      xenium::michael_scott_queue<int, p::reclaimer<R>, p::backoff<xenium::single_backoff>> q4;
+      use_value_queue<decltype(q4), int>(q4);
     }
     {
       xenium::ramalhete_queue<int*, p::reclaimer<R>, p::entries_per_node<1>, p::pop_retries<0>> q;
@@ -54,6 +57,8 @@ struct queues {
       use_ptr_queue(q2, std::unique_ptr<int>());
       xenium::ramalhete_queue<int*, p::reclaimer<R>> q3;
       use_ptr_queue(q3, static_cast<int*>(nullptr));
+      xenium::ramalhete_queue<int*, p::reclaimer<R>, p::backoff<xenium::single_backoff>> q3b;
+      use_ptr_queue(q3b, static_cast<int*>(nullptr));
       // node sizes that share a factor with small primes (the slot index is ticket * step mod entries_per_node)
       xenium::ramalhete_queue<int*, p::reclaimer<R>, p::entries_per_node<11>> q4;
       use_ptr_queue(q4, static_cast<int*>(nullptr));
